@@ -18,9 +18,21 @@ CHECKS = {
    technique="bounded symbolic execution of the real Go code (go/ssa -> SMT bit-vectors) against an exact math/big oracle modelled as 128-bit bit-vectors; z3 decides each assertion; counterexamples replayed natively",
    text="constant.BinaryOp/UnaryOp/Shift/Compare/Int64Val/Uint64Val/MakeUint64/ToInt/Sign and types.representableConst are executed symbolically with fully symbolic int64/uint64 operands for every operator token and every integer BasicKind; the assertion is that the returned Value denotes the exact mathematical result (math/big oracle) and is reported as an exact int64 iff it fits, resp. that a constant is representable iff it lies in the type's range with Wa's 32-bit int/uint. Covers all 2^128 operand pairs per operator; only the run-time half of the property (folded value = value computed by the compiled program) is left to C01.",
    note="Trusted: math/big modelled as 128-bit two's complement (exact for one operation on <=64-bit operands; the product uses the signed-multiply overflow predicate), go/ssa, the executor (validated per run by native replay of path models with the real math/big), z3 5.1.0. Divisor != 0 assumed; float/rational/complex/string constants outside the claim."),
+ "C17": dict(engine=E1, category="model_checking", design="DESIGN.md#C17",
+   technique="bounded symbolic execution of the real Go encoders/decoders and of the x/arch disassemblers (go/ssa -> SMT bit-vectors), one task per mnemonic with fully symbolic registers and immediate; z3 decides each assertion; counterexamples replayed natively",
+   text="For every mnemonic of the RISC-V table (RV32 and RV64 modes, base and pseudo-instructions) and of the LoongArch64 table, riscv.EncodeRV32/RV64 resp. loong64.EncodeLA64 run symbolically with all four register operands (full int16 range) and the int32 immediate symbolic; on every path where the encoder accepts, golang.org/x/arch's riscv64asm/loong64asm decoder (executed symbolically as ordinary Go) must return the same operation, registers and immediate, and Wa's own DecodeEx must return the original instruction. One solver query per assertion and path covers all 2^96 operand combinations of that mnemonic. AArch64 (encoder is panic(TODO), nothing is accepted) and x86-64 (p9x86, table-driven Plan 9 assembler beyond the executor's reach) are outside the claim.",
+   note="Trusted: x/arch decoders as the independent reference (copied under third_party/xarch), the GNU-syntax normalisations listed in the harness (AM* operand order, alsl sa2+1, ldptr/stptr byte offsets), the hand-written pseudo-instruction base table, go/ssa, the executor (validated per run by native replay of path models), z3 5.1.0. fmt.Errorf/Sprintf are opaque stubs. Known findings (F/D extension of the RISC-V table, LoongArch relaxed signed immediates, fence reserved fields, addu16i.d) are listed per mnemonic and label in known_findings.txt."),
  # ---CHECKS-END---
 }
 NA = {
+ "C02": "solver-based checking needs an SMT semantics of the x86-64 subset wat2x64 emits and of the Plan 9 assembler back end (p9x86, 5.5 kLOC); none is available in the sandbox and writing one is out of reach (DESIGN.md#C02)",
+ "C07": "pretty printer over a pointer-rich AST quantified over every source text; no bounded value-level kernel carries the property and the printer (tabwriter, reflection on node types) cannot be encoded (DESIGN.md#C07)",
+ "C09": "relates two recursive-descent parsers and universes over every program; structural (AST equality), not a bounded computation over values (DESIGN.md#C09)",
+ "C16": "quantifies over all programs the type checker accepts; no validator to execute and no value-level kernel (DESIGN.md#C16)",
+ "C26": "the whole path is encoding/json (reflection), regexp, bufio and fmt, which the executor does not model and which are the substance of the property (DESIGN.md#C26)",
+ "C27": "quantifies over Go map-iteration schedules inside the whole compiler; not encodable (DESIGN.md#C27)",
+ "C28": "goroutine interleavings over the whole compiler; the executor is single-threaded (DESIGN.md#C28)",
+ "C31": "wazero's JIT-generated amd64 code carries the semantics; no x86-64 model exists in the sandbox (DESIGN.md#C31)",
  # ---NA-END---
 }
 DEFAULT_NA = "check not built yet (build in progress; see DESIGN.md section 4/5)"
